@@ -15,10 +15,16 @@ def classify(case, kind):
 def run(ctx):
     return vlib.standard_check(
         ctx,
-        targets=["C09/Corr.vo"],
-        pinned=None,
+        targets=["C09/Properties.vo", "C09/Corr.vo"],
+        pinned="C09/Pinned.v",
         binname="c09",
         classify=classify,
-        extra_trusted=[],
-        assumptions=[],
+        extra_trusted=[
+            "TypeScript reading of the emitted types: Ts/TsDen.v has_type_b (exact object reading; scalar texts 'string'/'number'/'boolean' or opaque atoms); `Schema.__OperationInput.T` is read as the alias the schema declaration exports for T in that namespace (C09/Spec.v vars_env), the namespace itself being C10's model, tied to /repo by the C10 check",
+            "Coercible is my transcription of CoerceVariableValues / input coercion (GraphQL Oct-2021 §6.1.2, §3.5-3.10) without the spec's extra leniencies (single value for a list, unknown variables ignored), which only enlarge it",
+        ],
+        assumptions=[
+            "guards: wf_schema (C10) and vars_wf (every variable's named type is a defined scalar/enum/input object): what `check` enforces for an accepted operation",
+            "theorems are of the form 'whenever has_type_b decides'; that it decides for the fuel used is evaluated on every candidate assignment of every run",
+        ],
     )
